@@ -1,7 +1,7 @@
 """C13 — hash256 is a structural fingerprint computed as real SHA-256 (DESIGN.md §5 C13)."""
 import vcheck, os
 
-MODULES = ["BeffVerif.Props.C13", "BeffVerif.Props.C13Inj", "BeffVerif.Props.C13Tree"]
+MODULES = ["BeffVerif.Props.C13", "BeffVerif.Props.C13Inj", "BeffVerif.Props.C13Tree", "BeffVerif.Props.C13Rec"]
 AUDIT = "BeffVerif/Audit/C13.lean"
 
 def run(chk):
@@ -17,7 +17,7 @@ def run(chk):
         "C13: collision resistance of SHA-256 is a cryptographic assumption, never a Lean axiom",
     ]
     chk.open_obligations += [
-        "injectivity of the Runtype-level token stream is proved for CLOSED trees (Props/C13Tree: different_behaviour_different_stream / _bytes, every constructor, under SourceDeterminesMatch = the regular-expression source decides what it matches); for trees with named references (cycle offsets) it is not proved: searched by the runtype-pair pass (c13.collision)",
+        "injectivity of the Runtype-level token stream is a theorem for every tree, with named references and recursion (Props/C13Tree for closed trees, Props/C13Rec: same_stream_same_behaviour_rec, different_behaviour_different_stream_rec / _bytes_rec), under three stated hypotheses: GoodR / GoodEnv (what a JavaScript object can be: distinct property and mapping keys, constants are constants), SourceDeterminesMatch (a regular expression's source decides what it matches: a fact about the regex engine, not modelled), Tok.Valid (payloads below 2^32 bytes). The converse half of C13 (name, alias-boundary, order and comment independence of the digest) is decided by the pair pass on the real classes (c13.same) and is a theorem only for property order / constants order (sorting lemmas); it is not a Lean theorem in general",
     ]
     quick = chk.tier == "quick"
     stats = []
